@@ -809,7 +809,7 @@ Qed.
 Theorem list_users_nodup m conds store ft fr limit pruned o r res :
   In res (lf_results (list_users m conds store ft fr limit pruned o r)) -> NoDup res.
 Proof.
-  unfold list_users. destruct (pruned && negb (N.eqb (otype o) ft && N.eqb r fr)); simpl.
+  unfold list_users. destruct (pruned && negb (N.eqb (otype o) ft && N.eqb r fr)); cbn [lf_results].
   - intros [<-|[]]. constructor.
   - intros H. apply set_dedup_In in H. apply in_flat_map in H. destruct H as [c [_ H]].
     apply in_map_iff in H. destruct H as [mp [<- H]]. apply (lu_nodup c mp H).
@@ -885,15 +885,15 @@ Proof.
   destruct (mmem B w).
   - unfold excl_body_w in H. apply in_app_or in H. destruct H as [H|H].
     + destruct (negb (mmem S (fst p)) && negb (mmem S w)); [|destruct H].
-      destruct H as [<-|[]]. left. apply in_map. exact Hp.
+      destruct H as [<-|[]]. left. cbn [f_user mkf]; apply in_map. exact Hp.
     + apply in_flat_map in H. destruct H as [q [Hq H]]. unfold excl_inner in H.
       destruct (is_wildcard (fst q)).
-      * destruct (negb (mmem S (fst p))); [|destruct H]. destruct H as [<-|[]]. left. apply in_map. exact Hp.
-      * destruct (snd q); destruct H as [<-|[]]; right; apply in_map; exact Hq.
+      * destruct (negb (mmem S (fst p))); [|destruct H]. destruct H as [<-|[]]. left. cbn [f_user mkf]; apply in_map. exact Hp.
+      * destruct (snd q); destruct H as [<-|[]]; right; cbn [f_user mkf]; apply in_map; exact Hq.
   - unfold excl_body_n in H. left.
     destruct (mmem S w || mmem S (fst p)).
-    + destruct (mget S (fst p)) as [[|]|]; destruct H as [<-|[]]; apply in_map; exact Hp.
-    + destruct H as [<-|[]]. apply in_map; exact Hp.
+    + destruct (mget S (fst p)) as [[|]|]; destruct H as [<-|[]]; cbn [f_user mkf]; apply in_map; exact Hp.
+    + destruct H as [<-|[]]. cbn [f_user mkf]; apply in_map; exact Hp.
 Qed.
 
 Lemma resolve_keys_In R mp k : In mp (resolve R) -> In k (map fst mp) -> exists e, In e R /\ f_user e = k.
@@ -929,12 +929,12 @@ Section FilterTyped.
         * destruct (N.eqb ty ft) eqn:E; [|destruct He]. destruct He as [<-|[]]. simpl. exact E.
         * destruct He.
       + intros x Hx. apply in_flat_map in Hx. destruct Hx as [t [_ Hx]].
-        destruct (t_sub t); try destruct Hx. destruct Hx as [<-|[]]. apply HD.
+        destruct (t_sub t) as [u|ty|o' r'']; [destruct Hx | destruct Hx |]. destruct Hx as [<-|[]]. apply HD.
     - simpl. apply HD.
     - simpl. apply merge_ok.
       + intros e [].
       + intros x Hx. apply in_flat_map in Hx. destruct Hx as [t [_ Hx]].
-        destruct (t_sub t); try destruct Hx. destruct Hx as [<-|[]]. apply HD.
+        destruct (t_sub t) as [u|ty|o' r'']; [| destruct Hx | destruct Hx]. destruct Hx as [<-|[]]. apply HD.
     - simpl. intros c Hc. simpl in Hc. apply cdedup_In in Hc. apply in_map_iff in Hc.
       destruct Hc as [cs [<- Hcs]]. apply cart_In in Hcs.
       intros e He. apply lu_union_keys in He. destruct He as [R [e' [HR [He' Hu]]]]. rewrite <- Hu.
@@ -999,7 +999,7 @@ Section FilterTyped.
     In res (lf_results (list_users m conds store ft fr limit pruned o r)) -> In u res ->
     key_ok ft fr u = true.
   Proof.
-    unfold list_users. destruct (pruned && negb (N.eqb (otype o) ft && N.eqb r fr)); simpl.
+    unfold list_users. destruct (pruned && negb (N.eqb (otype o) ft && N.eqb r fr)); cbn [lf_results].
     - intros [<-|[]] [].
     - intros H Hu. apply set_dedup_In in H. apply in_flat_map in H. destruct H as [c [Hc H]].
       apply in_map_iff in H. destruct H as [mp [<- Hmp]].
@@ -1008,3 +1008,190 @@ Section FilterTyped.
   Qed.
 
 End FilterTyped.
+
+(* ================================================================================================ *)
+(* Refutations: the denotational equations are FALSE of the code outside the hypotheses above.      *)
+(* Every witness is replayed on the real ListUsers (corpus/C06-witnesses.jsonl).                    *)
+(* ================================================================================================ *)
+Definition tU : tid := 1.
+Definition W1 : subject := SWild tU.
+Definition ua : subject := SObj {| otype := tU; oid := 1 |}.
+Definition ub : subject := SObj {| otype := tU; oid := 2 |}.
+Definition uc : subject := SObj {| otype := tU; oid := 3 |}.
+
+(* expandUnion keeps an exclusion only when EVERY operand lists it: `(all but not a) or nobody`
+   denotes "all but a", the union's output denotes "all" *)
+Theorem lu_union_den_refuted :
+  exists w Rs k, covers w k = true /\ den w (lu_union Rs) k <> existsb (fun R => den w R k) Rs.
+Proof.
+  exists W1, [[mkf W1 Has []; mkf ua NoRel [ua]]; []], ua. split; [reflexivity|]. vm_compute. discriminate.
+Qed.
+
+(* ... and it counts occurrences, not operands: two entries of ONE operand listing b make b
+   "excluded by both operands", although the other operand found b; the intersection above then
+   drops b *)
+Theorem lu_union_excl_found_refuted :
+  exists Rs k, has (lu_union Rs) k = true /\ exl (lu_union Rs) k = true.
+Proof.
+  exists [[mkf W1 Has []; mkf ub NoRel [ub]; mkf uc Has []; mkf ub NoRel [ub]]; [mkf ub Has []]], ub.
+  vm_compute. split; reflexivity.
+Qed.
+
+Theorem lu_inter_den_refuted :
+  exists w Rs k, Rs <> [] /\ covers w k = true /\ den w (lu_inter w Rs) k <> forallb (fun R => den w R k) Rs.
+Proof.
+  exists W1, [[mkf W1 Has [ub]; mkf ub Has [ub]]; [mkf ub Has []]], ub.
+  split; [discriminate|]. split; [reflexivity|]. vm_compute. discriminate.
+Qed.
+
+(* expandExclusion, base with the wildcard: the status of the base entries is not looked at *)
+Theorem lu_excl_den_refuted :
+  exists w B S k, uniq B = true /\ uniq S = true /\ covers w k = true /\
+    den w (lu_excl w B S) k <> den w (of_map B) k && negb (den w (of_map S) k).
+Proof.
+  exists W1, [(W1, Has); (ua, NoRel)], [], ua. repeat split; try reflexivity. vm_compute. discriminate.
+Qed.
+
+(* expandExclusion, base without the wildcard: "not in base" and "not in subtract" give "in" *)
+Theorem lu_excl_den_refuted_norel :
+  exists w B S k, uniq B = true /\ uniq S = true /\ covers w k = true /\
+    den w (lu_excl w B S) k <> den w (of_map B) k && negb (den w (of_map S) k).
+Proof.
+  exists W1, [(ua, NoRel)], [(ua, NoRel)], ua. repeat split; try reflexivity. vm_compute. discriminate.
+Qed.
+
+(* expandExclusion forgets the excludedUsers of its operands (an intersection below it) *)
+Theorem lu_excl_drops_excluded_refuted :
+  exists w Bc B k, In B (resolve Bc) /\ covers w k = true /\
+    den w (lu_excl w B []) k <> den w Bc k && negb (den w [] k).
+Proof.
+  exists W1, [mkf W1 Has [ua]], [(W1, Has)], ua. split; [left; reflexivity|]. split; [reflexivity|].
+  vm_compute. discriminate.
+Qed.
+
+(* several dispatches writing to one channel are an implicit union that nobody computes *)
+Theorem merge_den_refuted :
+  exists w R1 R2 k, covers w k = true /\ den w (R1 ++ R2) k <> den w R1 k || den w R2 k.
+Proof.
+  exists W1, [mkf W1 Has []; mkf ua NoRel [ua]], [mkf W1 Has []], ua. split; [reflexivity|]. vm_compute. discriminate.
+Qed.
+
+(* one key received with both statuses: the answer depends on the arrival order *)
+Theorem resolve_race_refuted :
+  exists R m1 m2, In m1 (resolve R) /\ In m2 (resolve R) /\ final m1 = [ua] /\ final m2 = [].
+Proof.
+  exists [mkf ua Has []; mkf ua NoRel []], [(ua, Has)], [(ua, NoRel)].
+  vm_compute. repeat split; auto.
+Qed.
+
+(* ---- whole requests: model + tuples + reference semantics ------------------------------------- *)
+Definition mk_obj (t i : N) : obj := {| otype := t; oid := i |}.
+Definition mk_t (o : obj) (r : rid) (s : subject) : tuple := {| t_obj := o; t_rel := r; t_sub := s; t_cond := 0; t_ceval := T |}.
+Definition rU : restriction := {| r_type := tU; r_kind := RObj; r_cond := 0 |}.
+Definition rW : restriction := {| r_type := tU; r_kind := RWild; r_cond := 0 |}.
+Definition tDoc : tid := 2.
+Definition doc1 : obj := mk_obj tDoc 1.
+
+(* doc: base [user, user:*], blocked [user], banned [user],
+        viewer: (base but not blocked) but not banned
+   doc:1#base@user:*, doc:1#blocked@user:a *)
+Definition m_nested : model :=
+  [ {| td_type := tU; td_rels := [] |};
+    {| td_type := tDoc; td_rels :=
+         [ {| rd_rel := 1; rd_rw := This; rd_restr := [rU; rW] |};
+           {| rd_rel := 2; rd_rw := This; rd_restr := [rU] |};
+           {| rd_rel := 3; rd_rw := This; rd_restr := [rU] |};
+           {| rd_rel := 4; rd_rw := Diff (Diff (Computed 1) (Computed 2)) (Computed 3); rd_restr := [] |} ] |} ].
+Definition s_nested : list tuple := [ mk_t doc1 1 W1; mk_t doc1 2 ua ].
+Definition a_nested : list atom := [ (doc1, 1); (doc1, 2); (doc1, 3); (doc1, 4) ].
+
+(* SOUNDNESS is refuted: ListUsers(doc:1, viewer, user) = {user:*, user:a}, user:a is blocked *)
+Theorem list_users_sound_refuted :
+  exists m conds store atoms ft fr limit o r res u,
+    stratified m = true /\ converged m conds store u atoms = true /\
+    lf_errs (list_users m conds store ft fr limit false o r) = [] /\
+    In res (lf_results (list_users m conds store ft fr limit false o r)) /\ In u res /\
+    holds3 m conds store u atoms o r = F.
+Proof.
+  exists m_nested, [], s_nested, a_nested, tU, 0, 25%nat, doc1, 4, [W1; ua], ua.
+  vm_compute. repeat split; auto.
+Qed.
+
+(* doc: base [user, user:*], blocked [user], editor [user], owner [user],
+        viewer: ((base but not blocked) or editor) and owner
+   base@user:*, base@user:c, blocked@user:b, editor@user:b, owner@user:b *)
+Definition m_omit : model :=
+  [ {| td_type := tU; td_rels := [] |};
+    {| td_type := tDoc; td_rels :=
+         [ {| rd_rel := 1; rd_rw := This; rd_restr := [rU; rW] |};
+           {| rd_rel := 2; rd_rw := This; rd_restr := [rU] |};
+           {| rd_rel := 3; rd_rw := This; rd_restr := [rU] |};
+           {| rd_rel := 4; rd_rw := This; rd_restr := [rU] |};
+           {| rd_rel := 5; rd_rw := Inter [Union [Diff (Computed 1) (Computed 2); Computed 3]; Computed 4]; rd_restr := [] |} ] |} ].
+Definition s_omit : list tuple := [ mk_t doc1 1 W1; mk_t doc1 1 uc; mk_t doc1 2 ub; mk_t doc1 3 ub; mk_t doc1 4 ub ].
+Definition a_omit : list atom := [ (doc1, 1); (doc1, 2); (doc1, 3); (doc1, 4); (doc1, 5) ].
+
+(* COMPLETENESS is refuted: user:b is editor and owner, ListUsers(doc:1, viewer, user) = {} *)
+Theorem list_users_complete_refuted :
+  exists m conds store atoms ft fr limit o r u,
+    stratified m = true /\ converged m conds store u atoms = true /\
+    lf_errs (list_users m conds store ft fr limit false o r) = [] /\
+    lf_results (list_users m conds store ft fr limit false o r) = [[]] /\
+    covers (SWild ft) u = true /\
+    holds3 m conds store u atoms o r = T.
+Proof.
+  exists m_omit, [], s_omit, a_omit, tU, 0, 25%nat, doc1, 5, ub.
+  vm_compute. repeat split; auto.
+Qed.
+
+(* the filter's relation is ignored for objects: filter group#member, tuple doc:1#viewer@group:1 *)
+Definition tGroup : tid := 3.
+Definition m_filter : model :=
+  [ {| td_type := tU; td_rels := [] |};
+    {| td_type := tGroup; td_rels := [ {| rd_rel := 1; rd_rw := This; rd_restr := [rU] |} ] |};
+    {| td_type := tDoc; td_rels :=
+         [ {| rd_rel := 2; rd_rw := This;
+              rd_restr := [ {| r_type := tGroup; r_kind := RObj; r_cond := 0 |};
+                            {| r_type := tGroup; r_kind := RSet 1; r_cond := 0 |} ] |} ] |} ].
+Definition s_filter : list tuple := [ mk_t doc1 2 (SObj (mk_obj tGroup 1)) ].
+
+Theorem lu_filter_typed_refuted :
+  exists m conds store ft fr limit o r res u,
+    validate m ft fr o r = None /\
+    In res (lf_results (list_users m conds store ft fr limit false o r)) /\ In u res /\
+    filter_match ft fr u = false.
+Proof.
+  exists m_filter, [], s_filter, tGroup, 1, 25%nat, doc1, 2, [SObj (mk_obj tGroup 1)], (SObj (mk_obj tGroup 1)).
+  vm_compute. repeat split; auto.
+Qed.
+
+(* ---- non-vacuity of the hypotheses ------------------------------------------------------------- *)
+(* union: three positive operands, wildcards in two of them *)
+Example lu_union_den_ex :
+  let Rs := [[mkf W1 Has []; mkf ua Has []]; [mkf ub Has []]; [mkf W1 Has []]] in
+  forallb clean Rs = true /\ den W1 (lu_union Rs) uc = true /\ has (lu_union Rs) uc = false.
+Proof. vm_compute. repeat split. Qed.
+
+(* intersection: `(all but not a)`, `{a, b, c}`, `all`: operands of an exclusion's shape *)
+Example lu_inter_den_ex :
+  let Rs := [[mkf W1 Has []; mkf ua NoRel [ua]]; [mkf ua Has []; mkf ub Has []; mkf uc Has []]; [mkf W1 Has []]] in
+  forallb (wf_op W1) Rs = true /\ Rs <> [] /\
+  den W1 (lu_inter W1 Rs) ua = false /\ den W1 (lu_inter W1 Rs) ub = true /\ has (lu_inter W1 Rs) W1 = false.
+Proof. vm_compute. repeat split; discriminate. Qed.
+
+(* exclusion: base {*, a}, subtract {* except b, plus c}: the answer is "b" *)
+Example lu_excl_den_ex :
+  let B := [(W1, Has); (ua, Has)] in
+  let S := [(W1, Has); (ub, NoRel); (uc, Has)] in
+  uniq S = true /\ all_has B = true /\ one_wild W1 S = true /\ wild_has W1 S = true /\
+  den W1 (lu_excl W1 B S) ub = true /\ den W1 (lu_excl W1 B S) ua = false /\ den W1 (lu_excl W1 B S) uc = false.
+Proof. vm_compute. repeat split. Qed.
+
+Example lu_nodup_ex :
+  let R := [mkf ua Has []; mkf ub NoRel []; mkf ua Has []; mkf W1 Has []] in
+  resolve R = [[(ub, NoRel); (ua, Has); (W1, Has)]] /\ final [(ub, NoRel); (ua, Has); (W1, Has)] = [ua; W1].
+Proof. vm_compute. split; reflexivity. Qed.
+
+Example lu_filter_typed_ex :
+  lf_results (list_users m_nested [] s_nested tU 0 25%nat false doc1 1) = [[W1]] /\ key_ok tU 0 W1 = true.
+Proof. vm_compute. split; reflexivity. Qed.
